@@ -64,7 +64,7 @@ Record InvA (s : st) : Prop := {
   pd_ok : pctor s <= 1 /\ pdtor s = freed s * pctor s;
   (* the self reference exists exactly while charge is between `_ptr = ptr` and its outcome, or the tracer is linked *)
   tr_ok : match cpcf s with
-          | CClaim | CDtor | CSet | CGate1 | CGate2 => selfref s = false /\ tcount s = 0
+          | CClaim | CDtor | CSet | CGate1 | CGate2 | CGiveE => selfref s = false /\ tcount s = 0
           | CSub _ _ => selfref s = true /\ tcount s = 0
           | CClr => selfref s = true /\ tcount s = 0 /\ is_ready s = true
           | _ => tcount s = b2n (selfref s) /\ (is_ready s = true \/ selfref s = true)
@@ -160,7 +160,7 @@ Qed.
 Lemma alive_creator s : InvA s -> cpcf s <> CDone -> freed s = 0 /\ 1 <= rc s.
 Proof.
   intros I H. apply alive_of_handles; [exact I|]. unfold nh.
-  destruct (cpcf s) as [| | | | | |[|k]| | |]; try congruence; destruct (mode s); cbn; lia.
+  destruct (cpcf s) as [| | | | | |[|k]| | | |]; try congruence; destruct (mode s); cbn; lia.
 Qed.
 
 Lemma alive_user s j u : InvA s -> nth_error (users s) j = Some u -> 1 <= upc_handles (upcf u) ->
@@ -217,17 +217,20 @@ Ltac simp_st :=
 Lemma cpc_handles_next us m : cpc_handles m (next_give us m) = own_handles m.
 Proof. unfold next_give. destruct (existsb is_wait0 us); [reflexivity|]. destruct m; reflexivity. Qed.
 
+Lemma cpc_handles_next_early us m : cpc_handles m (next_early us) = own_handles m.
+Proof. unfold next_early. destruct (existsb is_early us); reflexivity. Qed.
+
 Lemma inv_init ops : Inv (init ops).
 Proof.
   pose proof (decode_user_wait0 ops) as W.
   unfold init. set (us := flat_map decode_user ops) in *. set (m := mode_of ops).
   split; [constructor|]; simp_st; unfold nh, tcount, occ, chain, is_ready; simp_st.
   - intros _. rewrite (sumu_wait0 us W). unfold init_cpc.
-    destruct m; try rewrite cpc_handles_next; cbn; lia.
+    destruct m; try rewrite cpc_handles_next; try rewrite cpc_handles_next_early; cbn; lia.
   - split; [lia|discriminate].
   - reflexivity.
   - destruct m; cbn; lia.
-  - unfold init_cpc, next_give. destruct m; cbn; try (destruct (existsb is_wait0 us)); cbn; auto.
+  - unfold init_cpc, next_give, next_early. destruct m; cbn; try (destruct (existsb is_wait0 us)); try (destruct (existsb is_early us)); cbn; auto.
   - destruct m; cbn; auto.
   - intros j u H. pose proof H as H2. apply nth_error_In in H. unfold kind_ok, kind_pc. rewrite (W u H). split; [destruct (ukd u); exact I|].
     apply in_flat_map in H. destruct H as (l & _ & H). unfold decode_user in H.
@@ -327,6 +330,17 @@ Proof.
   destruct (is_wait0 x); [discriminate|]. destruct (give l); [discriminate|]. cbn. apply IH. reflexivity.
 Qed.
 
+Lemma give_early_spec l : forall us, give_early l = Some us ->
+  exists j u, nth_error l j = Some u /\ upcf u = UWait0 /\ us = set_nth l j (set_upc u UWait1).
+Proof.
+  induction l as [|x l IH]; intros us H; cbn [give_early] in H; [discriminate|].
+  destruct (is_early x) eqn:E.
+  - inversion H; subst. exists 0, x. repeat split. unfold is_early, is_wait0 in E. apply andb_prop in E. destruct E as (E & _).
+    destruct (upcf x); try discriminate. reflexivity.
+  - destruct (give_early l) as [r|] eqn:G; [|discriminate]. inversion H; subst.
+    destruct (IH r eq_refl) as (j & u & A & B & ->). exists (S j), u. repeat split; assumption.
+Qed.
+
 Lemma kd_set_nth l j u u' :
   (forall j0 u0, nth_error l j0 = Some u0 -> kind_ok u0) -> nth_error l j = Some u -> kind_ok u' ->
   forall j0 u0, nth_error (set_nth l j u') j0 = Some u0 -> kind_ok u0.
@@ -345,7 +359,7 @@ Ltac norm :=
   | N : ?a <> ?b, H : context[Nat.eqb ?b ?a] |- _ => rewrite (proj2 (Nat.eqb_neq b a)) in H by auto
   | N : ?a <> ?b, H : context[Nat.eqb ?a ?b] |- _ => rewrite (proj2 (Nat.eqb_neq a b)) in H by auto
   end;
-  try rewrite cpc_handles_next; cbn [cpc_handles own_handles] in *.
+  try rewrite cpc_handles_next; try rewrite cpc_handles_next_early; cbn [cpc_handles own_handles] in *.
 
 Ltac split_hyps :=
   repeat match goal with
@@ -371,6 +385,7 @@ Ltac go :=
   end;
   unf; rew_hyps; norm; split_hyps; rew_hyps; norm;
   try (unfold next_give; destruct (existsb is_wait0 _));
+  try (unfold next_early; destruct (existsb is_early _));
   try match goal with
   | Ioc : forall w, _ = inl _ w |- forall w : nat, @?P w = @?Q w => let w := fresh "w" in intros w; specialize (Ioc w); norm
   end;
